@@ -1,5 +1,7 @@
 import Casm.Model.Assemble
 import Casm.Proofs.StaticMatch
+import Casm.Proofs.SwitchPass
+import Casm.Props.C02
 /-!
 # C08 — the two optimisation switches never change any result
 
@@ -32,6 +34,16 @@ the model of the analysis and of the evaluator, for all expressions, rules and a
 * `frozen_instruction_is_what_recomputation_chooses` — under the conditions of the short-cut
   (every candidate statically known, none unresolved, a single smallest encoding) resolving the
   instruction again in any later state chooses that same encoding.
+
+* `evaluation_ignores_the_static_switch`, `later_passes_ignore_the_static_switch` — expression
+  evaluation, candidate resolution and asm blocks never read the switch; every pass but the first
+  is the same function under both settings;
+* `optimised_result_is_a_solution_of_the_unoptimised_assembler` — whenever the optimised
+  assembler succeeds (budget ≥ 2), the state it reads its output from, with every mark cleared, is
+  a fixed point of the *unoptimised* assembler's strict pass: the unoptimised assembler, handed
+  that result, recomputes every item to the same value, stable and silent.  (What is not proved is
+  that the unoptimised iteration, started from scratch, walks to this same fixed point; that is
+  the four-way comparison of every run.)
 
 Stating these theorems is what exposed findings F30–F34 (each a stale frozen encoding in the
 pinned tree, demonstrated on the real binary and repaired): a parameter named like a constant,
@@ -193,6 +205,26 @@ theorem frozen_instruction_is_what_recomputation_chooses (st : Static) (defsM de
     (h1 : resolveEncoding st defs1 evalFuel ctx1 cands {} = .ok (some encs, rep)) (hs : encs.length = 1) :
     resolveEncoding st defs2 evalFuel ctx2 cands {} = .ok (some encs, []) :=
   frozen_instruction_sound st defsM defs1 defs2 ctx1 ctx2 rel fk cands hk hd encs rep h1 hs
+
+/-- **evaluation never reads the static switch** -/
+theorem evaluation_ignores_the_static_switch (st : Static) (b : Bool) (d : Defs) :
+    resolverEval (st.withStatic b) d = resolverEval st d :=
+  resolverEval_switch st b (SameView.refl d)
+
+/-- **every pass but the first is the same under both settings** -/
+theorem later_passes_ignore_the_static_switch (st : Static) (b last : Bool) (nodes : List AstNode) (d : Defs) :
+    resolveOnce (st.withStatic b) nodes false last d = resolveOnce st nodes false last d :=
+  resolveOnce_switch st b last nodes d
+
+/-- **C08 (static switch): the optimised result is a solution of the unoptimised assembler** -/
+theorem optimised_result_is_a_solution_of_the_unoptimised_assembler (opts : Opts) (fs : SrcFiles) (roots : List (List Char))
+    (res : AsmOk) (hb : 2 ≤ opts.maxIter) (ho : opts.optStatic = true) (h : assemble opts fs roots = .ok res) :
+    ∃ st nodes defs0 d, frontEnd opts fs roots = .ok (st, nodes, defs0) ∧ Casm.C02.ReadFrom st nodes d res ∧
+      resolveOnce (st.withStatic false) nodes false true d.unfreeze = .ok (d.unfreeze, true, []) := by
+  obtain ⟨st, nodes, defs0, d, hf, hr, hfix⟩ := Casm.C02.success_recomputes_everything opts fs roots res hb ho h
+  refine ⟨st, nodes, defs0, d, hf, hr, ?_⟩
+  rw [resolveOnce_switch]
+  exact hfix
 
 /-! non-vacuity: `ld {x} => 0x10 @ x`8`; `ld 5` is statically known, `ld lbl` is not (even if a
     statically known constant is called `x`: finding F30) -/
